@@ -101,10 +101,10 @@ Proof. exact cleanup_owned_step. Qed.
 Print Assumptions C05_cleanup.
 
 (* adding a downtime: a fixed one is triggered at once iff its window is open; a flexible one iff its window is
-   open and the object already has a problem - PROVIDED the object has been checked (negated signature of the
-   recorded finding pending-flexible) *)
+   open and the object already has a problem (has a check result and it is not OK/Up) - in particular NOT on a
+   never-checked object (the former finding pending-flexible, fixed in /repo 7c445bb) *)
 Theorem C05_trigger_on_add : forall c now prev f o,
-  DtInv now f -> c5_wf_step prev (c5_mk c now f o) = true -> c5_sig_pending (c5_mk c now f o) = false ->
+  DtInv now f -> c5_wf_step prev (c5_mk c now f o) = true ->
   c5_chk_add (c5_mk c now f o) = true.
 Proof. exact step_check_add. Qed.
 Print Assumptions C05_trigger_on_add.
@@ -127,13 +127,16 @@ Proof. exact model_trace_proved_checks. Qed.
 Print Assumptions C05_oracle_accepts_model_unconditional.
 
 (* ---- recorded findings: the faithful model violates the statement; concrete witnesses ---- *)
-Theorem C05_pending_flexible_refuted :
+(* formerly C05_pending_flexible_refuted: since /repo 7c445bb the same run is accepted by the whole oracle *)
+Theorem C05_pending_flexible_fixed :
   c5_wf_run wit_cfg 0 init_full wit_pending = true /\
+  c5_oracle KService (c5_model_trace wit_cfg init_full wit_pending) = [] /\
+  total_cnt c5_is_start (c5_model_trace wit_cfg init_full wit_pending) = 0 /\
   exists s, In s (c5_model_trace wit_cfg init_full wit_pending) /\
-            c5_checked s = false /\ c5_problem s = false /\ c5_chk_add s = false /\ c5_sig_pending s = true /\
-            c5_trig_of 1 (c5_post s) = 1010.
-Proof. exact pending_flexible_refuted. Qed.
-Print Assumptions C05_pending_flexible_refuted.
+            c5_checked s = false /\ c5_problem s = false /\ c5_trig_of 1 (c5_post s) = 0 /\
+            length (filter (dt_in_effect (c5_now s)) (c5_post s)) = 0%nat.
+Proof. exact pending_flexible_fixed. Qed.
+Print Assumptions C05_pending_flexible_fixed.
 
 Theorem C05_lost_start_refuted :
   c5_wf_run wit_cfg 0 init_full wit_loststart = true /\
